@@ -22,7 +22,7 @@ FRAGS = ["{%", "{{", "{#", "%}", "}}", "#}", "*", "-", "+", " ", " ", "\t", "\n"
          "{%+", "é", "١", "!", "\r", "\x0b", "x.y", "%}\n", "{{*", "{%*", "{#*", "  {%*", "\t{{*", "{% raw %}", "{% endraw %}", "\\",
          " ", "\x1c", "$", "_", "̀", "à", "2.", ".5", "1.2.3", "{%- endraw -%}", "%%-", "##-", "\n  %% if x", " ## note"]
 
-_SETTINGS_LINE = [(None, None), ("%%", "##"), ("#", None), (None, "//"), ("%%-", "##"), ("::", "#"), ("a", "%")]
+_SETTINGS_LINE = [(None, None), ("%%", "##"), ("*", None), ("#", None), (None, "//"), ("%%-", "##"), ("::", "#"), ("a", "%"), ("//*", "*#"), ("%*", "##*")]
 
 
 def _err(e):
@@ -57,6 +57,16 @@ def real_lex(lx, src, TSE):
 _VALUE_BY_TEXT = {"data", "block_begin", "block_end", "variable_begin", "variable_end", "name"}
 
 
+_MARKER = {"old": False}
+
+
+def marker_of(ty):
+    """what the parser under check tests the begin token text for (observed by `parser_variant`, not assumed)"""
+    if _MARKER["old"]:
+        return "*"
+    return "{%*" if ty == "block_begin" else "{{*"
+
+
 def real_ptok(lx, src, TSE, reverse_operators):
     """`Lexer.wrap(Lexer.tokeniter(src))` in the driver's `ptok` format; integer / float / string values are converted
     by wrap (not modelled): their value field is `?`.  Returns (tokens, complete)."""
@@ -64,7 +74,7 @@ def real_ptok(lx, src, TSE, reverse_operators):
     try:
         for tok in lx.wrap(lx.tokeniter(src, None)):
             ty, val = tok.type, tok.value
-            wraps = 1 if ty in ("block_begin", "variable_begin") and val and val.endswith("*") else 0
+            wraps = 1 if ty in ("block_begin", "variable_begin") and val and val.endswith(marker_of(ty)) else 0
             if ty in reverse_operators:
                 out.append(f"{tok.lineno} operator {enc(val)} 0")
             elif ty in _VALUE_BY_TEXT:
@@ -147,11 +157,21 @@ def real_rules(L, lx):
 
 
 # ---------------------------------------------------------------------------------------------------------------------
+def parser_variant(bj):
+    """'before-fix' when the real parser takes a line statement whose prefix ends in `*` for an auto-indent block"""
+    import nunavut.jinja.jinja2.nodes as nodes
+    env = bj.Environment(line_statement_prefix="//*")
+    tree = env.parse("//* if true\nx\n//* endif\n")
+    return "before-fix" if any(isinstance(n, nodes.FilterBlock) for n in tree.body) else "repaired"
+
+
 def run_full_lexer(ctx, drv, bj, sj, corpus_lexer, variant_letter, fail):
     import nunavut.jinja.jinja2.lexer as L
     Lexer, TSE = L.Lexer, bj.TemplateSyntaxError
     from . import c19
     quick, rng = ctx.quick, ctx.rng
+    _MARKER["old"] = parser_variant(bj) == "before-fix"
+    ctx.extra["bundled_parser_marker_test"] = parser_variant(bj)
 
     def mkenv(lstrip, trim, ls, lc, keep):
         return bj.Environment(trim_blocks=trim, lstrip_blocks=lstrip, line_statement_prefix=ls, line_comment_prefix=lc, keep_trailing_newline=keep)
@@ -199,7 +219,7 @@ def run_full_lexer(ctx, drv, bj, sj, corpus_lexer, variant_letter, fail):
     corpus = list(corpus_lexer)
     grid_full = [(ls_, tr_, ls, lc) for ls_ in (False, True) for tr_ in (False, True) for ls, lc in _SETTINGS_LINE]
     grid_base = [(ls_, tr_, None, None) for ls_ in (False, True) for tr_ in (False, True)]
-    grid_line = [(ls_, tr_, ls, lc) for ls_ in (False, True) for tr_ in (False, True) for ls, lc in (_SETTINGS_LINE[1:2] if quick else _SETTINGS_LINE[1:4])]
+    grid_line = [(ls_, tr_, ls, lc) for ls_ in (False, True) for tr_ in (False, True) for ls, lc in (_SETTINGS_LINE[1:3] if quick else _SETTINGS_LINE[1:5])]
     grid_exh = grid_base + grid_line
     exh1_line = [s for s in exh1 if len(s) <= (3 if quick else 4)]
     plan = [("exhaustive-delimiters", exh1, grid_base), ("exhaustive-delimiters-line-prefixes", exh1_line, grid_line),
@@ -217,7 +237,7 @@ def run_full_lexer(ctx, drv, bj, sj, corpus_lexer, variant_letter, fail):
             ansB = drv.ask([f"lex {envcode(variant_letter, lstrip, trim)} {head} {enc(s)}" for s in cases], timeout=3000)
             ansS = drv.ask([f"lex {envcode('S', lstrip, trim)} {head} {enc(s)}" for s in cases], timeout=3000)
             do_ptok = stream == "random+corpus" or gi == 0
-            ansP = drv.ask([f"ptok {envcode(variant_letter, lstrip, trim)} {head} {enc(env.newline_sequence)} {enc(s)}" for s in cases], timeout=3000) if do_ptok else None
+            ansP = drv.ask([f"ptok {envcode(variant_letter, lstrip, trim)}{'o' if parser_variant(bj) == 'before-fix' else ''} {head} {enc(env.newline_sequence)} {enc(s)}" for s in cases], timeout=3000) if do_ptok else None
             setting = {"lstrip_blocks": lstrip, "trim_blocks": trim, "line_statement_prefix": ls, "line_comment_prefix": lc, "keep_trailing_newline": keep}
             for i, s in enumerate(cases):
                 rb, ru = real_lex(lxB, s, TSE), real_lex(lxS, s, TSE)
